@@ -25,7 +25,7 @@ RULE = (
     "child re-creates the aggregator on the same file and resubmits all subjects. Crossed with the initial states {absent, "
     "empty, header only, header + 2 rows}; variants: graceful exit at the crash point (exit handlers run), crash during "
     "recovery (depth 2, sampled), two worker threads in the crashing session, output path given without extension. Plus "
-    "histories of 2..4 sessions with overlapping subject sets and sibling aggregators on two files of one directory (one.tsv/two.tsv, results.model_a.tsv/results.model_b.tsv, run.tsv/run_2.tsv, a.b.tsv/a.tsv) "
+    "histories of 2..4 sessions with overlapping subject sets and sibling aggregators on two files of one directory (one.tsv/two.tsv, results.model_a.tsv/results.model_b.tsv, run.tsv/run_2.tsv, a.b.tsv/a.tsv) or the same file name in two directories, two sessions inside one interpreter with the first object garbage-collected "
     "(interleaved in one process; in two processes where one exits first). Non-trivial = every crash point / history; "
     "distinct = (initial state, variant, k) resp. hash of the history."
 )
@@ -51,9 +51,9 @@ def cases(tier, seed):
             if tier == "quick" and var in ("depth2",) and st not in ("absent", "header_rows"):
                 continue
             yield {"fam": "crash", "state": st, "variant": var}
-    for i in range(24 if tier == "quick" else 400):
+    for i in range(40 if tier == "quick" else 600):
         yield {"fam": "sessions", "i": i}
-    for i in range(36 if tier == "quick" else 360):
+    for i in range(45 if tier == "quick" else 450):
         yield {"fam": "siblings", "i": i}
 
 
@@ -260,7 +260,52 @@ def crash_enumeration(ctx, state, variant):
     ctx.sample({"state": state, "variant": variant, "operations": n, "crash_points": [("%s:%s" % tuple(o)) for o in ops[:40]]})
 
 
+def same_process_sessions(ctx, i):
+    """two aggregator sessions on one file inside one interpreter: the variable is simply re-bound (the first
+    object becomes garbage while the second is in use)"""
+    import gc
+
+    r = gen.rng(ctx.seed, "c17g", i)
+    d = tempfile.mkdtemp(prefix="c17g_", dir=os.environ.get("VERIF_TMP"))
+    path = os.path.join(d, "res.tsv")
+    subs1 = [str(x) for x in r.choice(NAMES, size=int(r.integers(1, 4)), replace=False)]
+    subs2 = sorted(set(subs1) | {str(x) for x in r.choice(NAMES, size=int(r.integers(1, 4)), replace=False)})
+    err = os.path.join(d, "err.txt")
+
+    def fn():
+        from panoptica import Panoptica_Aggregator
+        from vf import sched
+
+        sched.reset("log")
+        try:
+            raise ValueError("a caught exception keeps frames (and their locals) alive in reference cycles")
+        except ValueError as e:
+            keep = e  # noqa: F841
+        aggregator = Panoptica_Aggregator(pan.make_evaluator(CFG), path)
+        for s_ in subs1:
+            aggregator.evaluate(*subject_input(s_), s_)
+        aggregator = Panoptica_Aggregator(pan.make_evaluator(CFG), path)
+        gc.collect()
+        for s_ in subs2:
+            aggregator.evaluate(*subject_input(s_), s_)
+            if i % 2:
+                gc.collect()
+
+    rc = in_child(fn, err)
+    ctx.count("evaluations")
+    det = {"first_session": subs1, "second_session": subs2}
+    feats = {"variant": "two_sessions_in_one_process"}
+    if rc != 0:
+        ctx.viol("session_raised", dict(det, error=open(err).read()[-1500:] if os.path.exists(err) else rc), features=dict(feats, kind="session_raised"))
+        return
+    ctx.count("C17.session_histories_judged")
+    ctx.nontrivial("same_process", tuple(subs1), tuple(subs2))
+    judge_file(ctx, path, subs2, det, feats)
+
+
 def session_history(ctx, i):
+    if i % 4 == 3:
+        return same_process_sessions(ctx, i)
     r = gen.rng(ctx.seed, "c17s", i)
     d = tempfile.mkdtemp(prefix="c17h_", dir=os.environ.get("VERIF_TMP"))
     noext = i % 5 == 4
@@ -308,8 +353,11 @@ def siblings(ctx, i):
 
     r = gen.rng(ctx.seed, "c17sib", i)
     d = tempfile.mkdtemp(prefix="c17b_", dir=os.environ.get("VERIF_TMP"))
-    n1, n2 = [("one.tsv", "two.tsv"), ("results.model_a.tsv", "results.model_b.tsv"), ("run.tsv", "run_2.tsv"), ("a.b.tsv", "a.tsv")][(i // 3) % 4]
+    n1, n2 = [("one.tsv", "two.tsv"), ("results.model_a.tsv", "results.model_b.tsv"), ("run.tsv", "run_2.tsv"), ("a.b.tsv", "a.tsv"),
+              ("model_a/results.tsv", "model_b/results.tsv")][(i // 3) % 5]
     one, two = os.path.join(d, n1), os.path.join(d, n2)
+    for pth in (one, two):
+        os.makedirs(os.path.dirname(pth), exist_ok=True)
     subs1 = [str(x) for x in r.choice(NAMES, size=int(r.integers(2, 5)), replace=False)]
     subs2 = [str(x) for x in r.choice(NAMES, size=int(r.integers(2, 5)), replace=False)]
     if i % 3 == 0:
